@@ -169,3 +169,150 @@ Example prog_effect_example :
   let c := s_core (do_step (SProg [PLabels 2; PNamed 7; PNamed 7; PSection; PAddrTab; PAddrTab; PFunc 0; PConst; PConst; PEndFunc; PAnnot] 3 false) state0) in
   (c_lab c, c_sec c, c_rel c, c_vregs c, c_ja c) = (6, 3, 3, 1, 1).
 Proof. reflexivity. Qed.
+
+(* ================================================================== round 5: full-strength statements about single steps *)
+(* a reset-like step clears everything a program can observe in the holder: names, .addrtab, pending state, open-function pool *)
+Theorem reset_like_idempotent : forall r1 r2 s, ready s = true -> reset_like r1 = true -> reset_like r2 = true ->
+  s_core (do_step r2 (do_step r1 s)) = s_core (do_step r1 s).
+Proof.
+  intros r1 r2 s H H1 H2. rewrite (reset_like_core0 r1 s H H1).
+  apply reset_like_core0; [apply ready_step; exact H | exact H2].
+Qed.
+
+(* what a reset-like step must NOT change: the persistent configuration (validation diagnostics) ... *)
+Theorem reset_like_keeps_configuration : forall r s, reset_like r = true -> s_valid (do_step r s) = s_valid s.
+Proof.
+  intros r s H. destruct r; simpl in H; try discriminate; simpl; try reflexivity.
+  destruct (c_init (s_core s) && c_att (s_core s)); reflexivity.
+Qed.
+
+(* ... and the emitter's OWN logger (user configuration); a holder reset drops the holder's logger, reinit keeps it *)
+Theorem reset_like_keeps_own_logger : forall r s, reset_like r = true -> a_own (s_amb (do_step r s)) = a_own (s_amb s).
+Proof.
+  intros r s H. destruct r; simpl in H; try discriminate; simpl; try reflexivity.
+  destruct (c_init (s_core s) && c_att (s_core s)); reflexivity.
+Qed.
+Theorem holder_reset_drops_holder_logger : forall p s, a_hlog (s_amb (do_step (SReset p) s)) = false.
+Proof. reflexivity. Qed.
+Theorem reinit_keeps_holder_logger : forall s, a_hlog (s_amb (do_step SReinit s)) = a_hlog (s_amb s).
+Proof. intros s. simpl. destruct (c_init (s_core s) && c_att (s_core s)); reflexivity. Qed.
+
+(* the effective emitter logger is always: own logger, else the holder's -- an invariant of every script (from state0) *)
+Definition logger_consistent (s : state) : Prop :=
+  a_elog (s_amb s) = (a_own (s_amb s) || a_hlog (s_amb s)).
+
+Lemma logger_consistent_step : forall x s, logger_consistent s -> logger_consistent (do_step x s).
+Proof.
+  intros x s H. unfold logger_consistent in *. destruct s as [c v [hl ow el ex] r]. simpl in *. subst el.
+  destruct x; simpl; try reflexivity; try (destruct ow; reflexivity).
+  - destruct (c_init c && c_att c); simpl; reflexivity.
+  - destruct on; reflexivity.
+Qed.
+
+Theorem logger_consistent_run : forall h s, logger_consistent s -> logger_consistent (run h s).
+Proof.
+  induction h as [|x h IH]; intros s H; [exact H|]. rewrite run_cons. apply IH. apply logger_consistent_step. exact H.
+Qed.
+
+(* programs never decrease a counter, never touch init / attached, and never change the configuration *)
+Lemma do_pop_monotone : forall c o,
+  (c_sec c <= c_sec (do_pop c o) /\ c_lab c <= c_lab (do_pop c o) /\ c_vregs c <= c_vregs (do_pop c o) /\ c_ja c <= c_ja (do_pop c o))%N /\
+  c_init (do_pop c o) = c_init c /\ c_att (do_pop c o) = c_att c /\ c_rel (do_pop c o) = c_rel c.
+Proof.
+  intros c o. destruct o; simpl;
+    repeat match goal with |- context [if ?x then _ else _] => destruct x end; simpl; repeat split; try reflexivity; lia.
+Qed.
+
+Lemma fold_pop_monotone : forall ops c,
+  (c_sec c <= c_sec (fold_left do_pop ops c) /\ c_lab c <= c_lab (fold_left do_pop ops c) /\
+   c_vregs c <= c_vregs (fold_left do_pop ops c) /\ c_ja c <= c_ja (fold_left do_pop ops c))%N /\
+  c_init (fold_left do_pop ops c) = c_init c /\ c_att (fold_left do_pop ops c) = c_att c /\ c_rel (fold_left do_pop ops c) = c_rel c.
+Proof.
+  induction ops as [|o ops IH]; intros c; [simpl; repeat split; try reflexivity; lia|].
+  cbn [fold_left]. destruct (IH (do_pop c o)) as [[A1 [A2 [A3 A4]]] [B1 [B2 B3]]].
+  destruct (do_pop_monotone c o) as [[C1 [C2 [C3 C4]]] [D1 [D2 D3]]].
+  repeat split; try lia; congruence.
+Qed.
+
+Theorem program_is_monotone : forall ops drel pend s,
+  let s' := do_step (SProg ops drel pend) s in
+  (c_sec (s_core s) <= c_sec (s_core s') /\ c_lab (s_core s) <= c_lab (s_core s') /\ c_rel (s_core s) <= c_rel (s_core s') /\
+   c_vregs (s_core s) <= c_vregs (s_core s') /\ c_ja (s_core s) <= c_ja (s_core s'))%N /\
+  c_init (s_core s') = c_init (s_core s) /\ c_att (s_core s') = c_att (s_core s) /\
+  s_valid s' = s_valid s /\ s_amb s' = s_amb s.
+Proof.
+  intros ops drel pend s. simpl. unfold gen_prog.
+  destruct (c_init (s_core s)) eqn:Ei; destruct (c_att (s_core s)) eqn:Ea; simpl;
+    try (repeat split; try reflexivity; try assumption; lia).
+  destruct (fold_pop_monotone ops (s_core s)) as [[A1 [A2 [A3 A4]]] [B1 [B2 B3]]].
+  repeat split; try lia; try reflexivity; rewrite ?B3; lia.
+Qed.
+
+(* no name survives a reset: after any history ending in a reset-like step EVERY named label can be defined again, and the
+   library-created .addrtab section appears again on the first absolute call *)
+Theorem names_do_not_survive_reset : forall h r s id, ready s = true -> reset_like r = true ->
+  c_lab (s_core (do_step (SProg [PNamed id] 0 false) (run (h ++ [r]) s))) = 1%N.
+Proof.
+  intros h r s id H Hr.
+  rewrite (step_core_congr (SProg [PNamed id] 0 false) (run (h ++ [r]) s) state0 (fresh_equiv h r s H Hr)). reflexivity.
+Qed.
+
+Theorem addrtab_does_not_survive_reset : forall h r s, ready s = true -> reset_like r = true ->
+  c_sec (s_core (do_step (SProg [PAddrTab] 0 false) (run (h ++ [r]) s))) = 2%N.
+Proof.
+  intros h r s H Hr.
+  rewrite (step_core_congr (SProg [PAddrTab] 0 false) (run (h ++ [r]) s) state0 (fresh_equiv h r s H Hr)). reflexivity.
+Qed.
+
+(* within one holder life a name IS remembered (the statement above is not vacuous) *)
+Example name_is_remembered_without_reset :
+  c_lab (s_core (run [SProg [PNamed 5] 0 false; SLogger true; SProg [PNamed 5] 0 false] state0)) = 1%N /\
+  c_lab (s_core (run [SProg [PNamed 5] 0 false; SReinit; SProg [PNamed 5] 0 false] state0)) = 1%N /\
+  c_lab (s_core (run [SProg [PNamed 5] 0 false; SProg [PNamed 6] 0 false] state0)) = 2%N.
+Proof. repeat split; reflexivity. Qed.
+
+(* the whole observation line (what the harness prints) after history ++ reset-like ++ neutral steps depends on the history only
+   through the logger flags *)
+Theorem observation_after_reset : forall h r n s, ready s = true -> reset_like r = true -> forallb neutral n = true ->
+  firstn 2 (observe (run (h ++ r :: n) s)) = [1; 1]%N /\
+  firstn 3 (skipn 3 (observe (run (h ++ r :: n) s))) = [1; 0; 0]%N /\
+  skipn 8 (observe (run (h ++ r :: n) s)) = [0; 0; 0]%N.
+Proof.
+  intros h r n s H Hr Hn.
+  assert (E : s_core (run (h ++ r :: n) s) = core0).
+  { replace (h ++ r :: n) with ((h ++ [r]) ++ n) by (rewrite <- app_assoc; reflexivity).
+    rewrite run_app. apply neutral_run_core0; [apply fresh_equiv; assumption | exact Hn]. }
+  unfold observe. rewrite E. simpl. repeat split; reflexivity.
+Qed.
+
+(* ---- what detach + attach and a new emitter do and do NOT touch ---- *)
+Theorem detach_attach_scope : forall s,
+  let s' := do_step SDetachAttach s in
+  (* holder content untouched *)
+  c_init (s_core s') = c_init (s_core s) /\ c_sec (s_core s') = c_sec (s_core s) /\ c_lab (s_core s') = c_lab (s_core s) /\
+  c_rel (s_core s') = c_rel (s_core s) /\ c_names (s_core s') = c_names (s_core s) /\ c_addrtab (s_core s') = c_addrtab (s_core s) /\
+  (* emitter state cleared *)
+  c_att (s_core s') = true /\ c_pending (s_core s') = false /\ c_nodes (s_core s') = 0%N /\ c_vregs (s_core s') = 0%N /\
+  c_ja (s_core s') = 0%N /\ c_final (s_core s') = false /\ c_lpool (s_core s') = false /\
+  (* configuration kept *)
+  s_valid s' = s_valid s /\ a_own (s_amb s') = a_own (s_amb s) /\ a_hlog (s_amb s') = a_hlog (s_amb s).
+Proof. intros s. simpl. repeat split; reflexivity. Qed.
+
+Theorem new_emitter_scope : forall s,
+  let s' := do_step SNewEmitter s in
+  c_sec (s_core s') = c_sec (s_core s) /\ c_lab (s_core s') = c_lab (s_core s) /\ c_rel (s_core s') = c_rel (s_core s) /\
+  c_names (s_core s') = c_names (s_core s) /\ c_addrtab (s_core s') = c_addrtab (s_core s) /\
+  c_pending (s_core s') = false /\ c_vregs (s_core s') = 0%N /\ c_ja (s_core s') = 0%N /\
+  (* a new emitter has the default configuration: no validation, no own logger; it inherits the holder's logger *)
+  s_valid s' = false /\ a_own (s_amb s') = false /\ a_elog (s_amb s') = a_hlog (s_amb s).
+Proof. intros s. simpl. repeat split; reflexivity. Qed.
+
+(* ---- the observation trace is compositional (the python side relies on one line per step) ---- *)
+Theorem trace_app : forall h1 h2 s, trace (h1 ++ h2) s = trace h1 s ++ trace h2 (run h1 s).
+Proof.
+  induction h1 as [|x h1 IH]; intros h2 s; [reflexivity|].
+  cbn [app trace]. rewrite IH. rewrite run_cons. reflexivity.
+Qed.
+
+Theorem trace_length : forall h s, length (trace h s) = length h.
+Proof. induction h as [|x h IH]; intros s; [reflexivity|]. cbn [trace length]. rewrite IH. reflexivity. Qed.
